@@ -60,8 +60,19 @@ func Reset(w []Draw, t string, b map[string]int) {
 	tape, pos, Failed, tier, bounds = w, 0, nil, t, b
 }
 
+// Lenient: draws beyond the end of the witness take default values instead of diverging (concolic fallback: the witness
+// is a solver model of a path prefix the engine could not continue; the native run completes it concretely).
+var Lenient bool
+
 func next(label, kind string) string {
 	if pos >= len(tape) {
+		if Lenient {
+			pos++
+			if kind == "string" {
+				return ""
+			}
+			return "0"
+		}
 		panic(Diverged{fmt.Sprintf("witness exhausted at draw %d (%s)", pos, label)})
 	}
 	d := tape[pos]
@@ -259,3 +270,13 @@ func StateDigest(ctx sdk.Context) string {
 // KnownAddress tells the engine about an account the harness uses, so that a SYMBOLIC receiver string can decode to it
 // (bech32 preimage axiom: an address has exactly two spellings, lower and upper case). Natively a no-op.
 func KnownAddress(a sdk.AccAddress) {}
+
+// SlashFree draws a string of exactly n bytes none of which is '/' (denominations are built from such segments, so
+// that the number of separators — what strings.Split forks on — is chosen explicitly).
+func SlashFree(label string, n int) string {
+	s := String(label, n)
+	if len(s) != n {
+		panic(Diverged{"segment length differs from the witness"})
+	}
+	return s
+}
